@@ -215,6 +215,10 @@ def r4(ctx: Ctx) -> RuleReport:
             n_tests += 1
             if not (has(t, 'Atom') or has(t, 'Const')):
                 continue
+            if has(t, 'Role'):
+                # "role or constant" is no slot of a triple or a branch: the slots were merged by the inference (tuple(x), list(x) ...), nothing is known
+                rep.add(f'{fi.module.name}:{fi.qualname}: truth test of {norm(leaf)}', fi.loc(leaf), 'info', f'type {show(t)} is a merge of several slots: not judged')
+                continue
             key = f'{fi.module.name}:{fi.qualname}: truth test of {norm(leaf)} in `{norm(owner).splitlines()[0][:60]}`'
             fz = R4_FROZEN.get((fi.fq, norm(leaf)))
             if fz:
@@ -624,8 +628,45 @@ def r30(ctx: Ctx) -> RuleReport:
                                                   f'the rewrite runs only when `{f}` is {pol}: a variable is any symbol (`_`, `_2`, `0a` ...), so a '
                                                   f'reference whose spelling fails this test keeps its old name while its definition is renamed')
                             good = (f"{l_role} != '/'", True) in facts or (f"{l_role} == '/'", False) in facts
-                            rep.add(f'{fi.fq}: the concept branch is never rewritten', fi.loc(n), 'ok' if good else 'undecided',
-                                    '' if good else f'`{norm(n)[:60]}` can run on the concept branch: a concept spelled like a variable would be renamed')
+                            if good:
+                                rep.ok(f'{fi.fq}: the concept branch is never rewritten', fi.loc(n))
+                            else:
+                                # another test of the role: evaluate it on the concept marker and on role spellings a tree may carry
+                                role_facts = []
+                                for f, pol in sorted(facts):
+                                    try:
+                                        fe = ast.parse(f, mode='eval').body
+                                    except SyntaxError:
+                                        continue
+                                    nms = {x.id for x in ast.walk(fe) if isinstance(x, ast.Name)}
+                                    if nms == {l_role}:
+                                        role_facts.append((f, fe, pol))
+
+                                def holds(sample):
+                                    out = True
+                                    for f, fe, pol in role_facts:
+                                        okv, val = try_fold(fe, {l_role: sample})
+                                        if not okv:
+                                            return None
+                                        out = out and (bool(val) == pol)
+                                    return out
+                                on_concept = holds('/') if role_facts else True
+                                samples = [':ARG0', ':ARG0-of', ':mod', ':', 'ARG0', 'mod-of']
+                                missed = [smp for smp in samples if role_facts and holds(smp) is False]
+                                if on_concept is None or any(holds(smp) is None for smp in samples if role_facts):
+                                    rep.undecided(f'{fi.fq}: the concept branch is never rewritten', fi.loc(n),
+                                                  f'`{norm(n)[:60]}` stands under a test of the role that does not fold: {[f for f, _, _ in role_facts]}')
+                                elif on_concept:
+                                    rep.add(f'{fi.fq}: the concept branch is never rewritten', fi.loc(n), 'violation' if role_facts else 'undecided',
+                                            f'`{norm(n)[:60]}` can run on the concept branch (the tests on the role, {[f for f, _, _ in role_facts]}, hold for "/"): a concept '
+                                            f'spelled like a variable would be renamed')
+                                elif missed:
+                                    rep.violation(f'{fi.fq}: every reference to a renamed variable is rewritten', fi.loc(n),
+                                                  f'the rewrite runs only when {[(f, pol) for f, _, pol in role_facts]}: that excludes the concept branch, but also branches whose role is '
+                                                  f'spelled {missed} (a tree built by hand may leave out the colon, format() adds it): a reference under such a role keeps its '
+                                                  f'old name while the node it refers to is renamed')
+                                else:
+                                    rep.ok(f'{fi.fq}: the concept branch is never rewritten', fi.loc(n), f'role test {[f for f, _, _ in role_facts]} excludes exactly "/"')
                             # shape of the new reference: varmap[ref] (+ tilde + alignment of the same atom)
                             parts = _concat_parts(v)
                             unp = None
@@ -1329,6 +1370,7 @@ def r92(ctx: Ctx) -> RuleReport:
         rep.undecided(f'{fi.fq}: TOP triples are written', fi.loc(loop), 'no append of (x, model.top_role, y)')
         return rep
     seen_dirs = set()
+    unknown_dir = False
     for a in tops:
         tup = a.args[-1]
         s0, s2 = norm(tup.elts[0]), norm(tup.elts[2])
@@ -1339,11 +1381,20 @@ def r92(ctx: Ctx) -> RuleReport:
             for k in (0, 2):
                 if pol and (m_.endswith(f'.variable=={tv}[{k}]') or m_.startswith(f'{tv}[{k}]==') and m_.endswith('.variable')):
                     eq = k
+        if eq is None:
+            # the complement: a Push stored on a triple names one of its two ends (interpret and the transformations only ever write
+            # Push(source) or Push(target) there), so "is not the one" means "is the other"
+            for fsrc, pol in fx:
+                m_ = fsrc.replace(' ', '')
+                for k in (0, 2):
+                    if not pol and (m_.endswith(f'.variable=={tv}[{k}]') or m_.startswith(f'{tv}[{k}]==') and m_.endswith('.variable')):
+                        eq = 2 - k
         key = f'{fi.fq}: `{norm(a)[:60]}` names the enclosing node first and the nested node last'
         if a.func.attr != 'append':
             rep.violation(key, fi.loc(a), f'`{a.func.attr}` does not put the TOP triple directly in front of the triple it belongs to')
             continue
         if eq is None:
+            unknown_dir = True
             rep.undecided(key, fi.loc(a), f'not under a test `push.variable == {tv}[0]` or `== {tv}[2]` (facts: {sorted(f for f, p in fx if p)[:3]})')
             continue
         seen_dirs.add(eq)
@@ -1360,7 +1411,9 @@ def r92(ctx: Ctx) -> RuleReport:
             if not after and an in cfg.reachable_from([m for m, lab in cfg.succ[kn] if m != head]):
                 rep.violation(key + ' (position)', fi.loc(a), 'the TOP triple is written after the triple that opens the nested node')
     for k, what in ((2, 'a nested node opened by a plain branch (Push names the target)'), (0, 'a nested node opened by an inverted branch (Push names the source)')):
-        if k not in seen_dirs:
+        if k not in seen_dirs and unknown_dir:
+            rep.undecided(f'{fi.fq}: a TOP triple is written for {what}', fi.loc(loop), 'a TOP triple is written under a condition this rule does not read')
+        elif k not in seen_dirs:
             rep.violation(f'{fi.fq}: a TOP triple is written for {what}', fi.loc(loop), f'no TOP triple is written under `push.variable == {tv}[{k}]`: such nested nodes get no TOP triple, so '
                           f'"exactly one top-role triple per nested node" fails')
     return rep
@@ -1442,6 +1495,23 @@ def r94(ctx: Ctx) -> RuleReport:
                 nguard = [f for f, pol in fx if not pol and f.startswith('appears_inverted(')]
                 if guard:
                     rep.ok(key, fi.loc(real[0]), guard[0])
+                    # ... and before their marker lists are stored under them: a store made before the exchange files the markers under the other triple
+                    c3 = CFG(fi.node)
+                    pm3 = ctx.repo.parent_map(fi.node)
+                    sn, head3 = owner_node(c3, pm3, real[0]), c3.node_of(loop)
+                    early = []
+                    for st_ in ast.walk(loop):
+                        if isinstance(st_, ast.Assign) and isinstance(st_.targets[0], ast.Subscript) and isinstance(st_.targets[0].slice, ast.Name) \
+                                and st_.targets[0].slice.id in (a_, c_):
+                            if c3.path_avoiding([(c3.node_of(st_), None)], {sn}, lambda nd: nd.id == head3):
+                                early.append(st_)
+                    k2 = f'{fi.fq}: the marker lists are filed after the two triples have changed places'
+                    if early:
+                        rep.violation(k2, fi.loc(early[0]), f'`{norm(early[0])[:60]}` runs before the exchange `{norm(real[0])}`: for an edge that appears inverted the markers '
+                                      f'(the Push of the new node, the original Push) are filed under the triple on the far side, while the list order is still exchanged - '
+                                      f'the new node is opened by a triple that does not mention it first, and indicate_branches / configure no longer see one nested node per Push')
+                    else:
+                        rep.ok(k2, fi.loc(real[0]))
                 elif nguard:
                     rep.violation(key, fi.loc(real[0]), 'the two triples change places exactly when the edge does NOT appear inverted')
                 else:
